@@ -99,6 +99,25 @@ int main(void)
 			report("");
 			break;
 		}
+		case 'H':        /* a page whose transmission runs across the following API calls: header and first row */
+			sscanf(line + 1, "%x", &a);
+			n_calls = 0; n_script = 0;
+			ttx_send_header(&tx, a, 0, TX_C4_ERASE, 0);
+			ttx_send_text_row(&tx, ((a >> 8) & 7) ? ((a >> 8) & 7) : 8, 1, "page across calls");
+			report("");
+			break;
+		case 'E': {      /* ... its last row and the terminating header */
+			char extra[64];
+			int mag;
+			sscanf(line + 1, "%x", &a);
+			mag = (a >> 8) & 7; if (!mag) mag = 8;
+			n_calls = 0; n_script = 0;
+			ttx_send_text_row(&tx, mag, 2, "second row");
+			ttx_send_filler(&tx, mag);
+			snprintf(extra, sizeof extra, ",\"cached\":%d", vbi_is_cached(vbi, a, VBI_ANY_SUBNO));
+			report(extra);
+			break;
+		}
 		case 'T': {
 			char extra[64];
 			int mag;
